@@ -20,7 +20,7 @@ kanirun.META.update({
 kanirun.DIRS.update({
     "C05": ["graph", "C05"],
     "C06": ["graph", "C07", "C06"],
-    "C08": ["graph", "proto", "C08"],
+    "C08": ["graph", "proto", "proto_std", "C08"],
     "C01": ["map", "C01"],
     "C02": ["map", "C02"],
     "C13": ["map", "C07", "C13"],
@@ -47,16 +47,14 @@ def _e2(prop):
 EXTRA = {"C18": _e2("C18"), "C16": _e2("C16"), "C06": _e2("C06")}
 
 kanirun.META["C16"] = {
-    "bounds": "byte strings of length <= 4 (quick) / <= 8 (thorough) for SharedBytes constructors, <= 3 handles dropped in every order; "
-              "all byte strings of length <= 4 for from_utf8; pairs of ASCII strings <= 3 bytes for Eq/Ord/Hash; model hasher with symbolic seed",
-    "outside": "longer buffers; serde visitors (feature off in the verified build); refcount interleavings are decided by the E2 queries; weak-memory executions",
+    "bounds": "E1: every constructor path for each concrete length 0,1,3 (quick) / 8 (thorough) with fully symbolic contents, 3 handles dropped in every order; from_utf8 for ALL byte strings of each length 0..4; Eq/Ord/Hash for pairs of lengths (1,2),(2,2) (quick) / (3,3) (thorough), symbolic hash seed; E2: 2 (quick) / 3 (thorough) threads each [clone; read; drop;] read; drop, symbolic capacity, all interleavings",
+    "outside": "longer buffers; serde visitors (feature off in the verified build); weak-memory executions beyond the Release/Acquire rule",
     "assumptions": COMMON_ASSUME[:2] + ["CBMC's allocator model (malloc never fails, dealloc layout check via Kani's __rust_dealloc model) stands for the real allocator"],
 }
 
 kanirun.META["C06"] = {
-    "bounds": "entry level: one dynamic entry holding (u64,u64), all sequences of <= 5 operations from {write, watcher1.reloaded, watcher2.reloaded, reloaded_global (typed/untyped), fresh watcher}, all 64-bit values; "
-              "graph level: <= 3 assets, <= 2 file keys, all dependency masks; watcher/increment interleavings by E2",
-    "outside": "edits never notified on a real filesystem; longer sequences; more than 2 watchers",
+    "bounds": "entry level: one dynamic entry holding (u64,u64), all sequences of <= 5 operations from {write, watcher1.reloaded, watcher2.reloaded, reloaded_global (typed/untyped), fresh watcher}, all 64-bit values; write section: snapshots at lock acquire/release; graph: one asset visited twice at model capacity 1; E2: 1 watcher x 2 polls vs 1 increment (quick), 2 polls vs 2 and 3 polls vs 1 (thorough), all interleavings",
+    "outside": "edits never notified on a real filesystem; diamonds and two notified files on real graphs, run_update (parked: undecidable within reach); more than 2 watchers",
     "assumptions": COMMON_ASSUME,
 }
 
@@ -74,8 +72,8 @@ kanirun.META["C13"] = {
 }
 
 kanirun.META["C10"] = {
-    "bounds": "entry level: reloadable / opted-out / built-in Storable types x mutable in {true,false}; history level: see harness list (histories of <= 4 cache operations on one key followed by one edit+event+reloader pass)",
-    "outside": "sources that fail configure_hot_reloading at run time; filesystem source",
+    "bounds": "entry level: reloadable / opted-out / built-in Storable types x mutable in {true,false}, Arc and OnceInitCell wrappers; cache level (single shard, model capacity 1, thread-less reloader): what a failing load and get_or_insert send to the reloader; a get_or_insert value sits in a non-rewritable entry",
+    "outside": "histories through a successful load / load_owned / reload_untyped (parked: out of memory at 32 GB); sources that fail configure_hot_reloading at run time; filesystem source",
     "assumptions": COMMON_ASSUME,
 }
 kanirun.META["C17"] = {
@@ -96,8 +94,8 @@ kanirun.META["C05"] = {
 }
 kanirun.META["C08"] = {
     "map_cap": {"quick": 2, "thorough": 3},
-    "bounds": "graph: look-up cycles A<->B, self look-up, A->B->C->A with one file read; recursion bound 8 frames (> nodes+1); protocol: see harness list",
-    "outside": "std locks; OS scheduling fairness; event bursts from a real watcher",
+    "bounds": "answer protocol: symbolic tokens and slot contents (all usize / Option<usize>), one critical section or one reload() call per harness; reloader thread: one pass from a concrete channel state; graph: an asset that looks itself up (model table capacity 1, recursion bound 3 frames)",
+    "outside": "std locks; OS scheduling fairness; event bursts; cycles of 2-3 assets and multi-caller schedules (parked: undecidable within reach); composition of the one-step obligations into deadlock freedom is a pen-and-paper monitor argument",
     "assumptions": COMMON_ASSUME + ["parking_lot::Condvar has no spurious wake-ups (documented) and wakes every waiter on notify_all; weak fairness of the scheduler"],
 }
 
